@@ -1,7 +1,8 @@
 (* C13 - property theorems only.  Model: C13_Model.v (QC steps of genotypes.py / transform.py);
    offender predicates and table shapes: C13_Proofs.v; clause checkers: C13_Check.v. *)
 From Coq Require Import QArith Qminmax PrimFloat.
-From HV Require Import Prelude GenoTable C13_Model C13_Proofs C13_Check C13_Sound C13_ProofsHist.
+From HV Require Import Prelude GenoTable C13_Model C13_Proofs C13_Check C13_Sound C13_ProofsHist
+                       C13_Wide C13_ModelW C13_CheckW C13_ProofsW.
 Open Scope Z_scope.
 
 (* ---- check_missing: raises iff some allele is missing, names such a call; discard mode
@@ -396,3 +397,230 @@ Theorem C13_named_offender_sound :
   forall f t s v, named_sat f t s v = true -> named_offender f t s v.
 Proof. exact named_sat_true. Qed.
 Print Assumptions C13_named_offender_sound.
+
+(* ==== the default loaders of all classes (C13_ModelW.load_model) =============================
+   LdPlain = Genotypes.load, inherited unchanged by GenotypesVCF and GenotypesPLINK (read; check_missing;
+   check_biallelic; check_phase); LdAnc = the same through GenotypesAncestry's overrides; LdTR =
+   GenotypesTR.load / GenotypesPLINKTR.load (read; check_phase): repeats are multiallelic by nature,
+   check_biallelic / check_maf are not implemented for them and their loaders do not call check_missing,
+   so only the phase check applies to what they return. *)
+
+Theorem C13_loader_postcondition :
+  forall ld t t',
+  in_range t ->
+  load_model ld t = QOk t' ->
+  match ld with
+  | LdTR =>
+      (3 <= g_planes t -> ~ some_cell (cell_unphased false) t)
+      /\ t' = (if g_planes t <? 3 then t else strip_phase t)
+  | _ =>
+      ~ some_cell (cell_missing (loader_anc ld)) t
+      /\ ~ some_cell cell_multi t
+      /\ (3 <= g_planes t -> ~ some_cell (cell_unphased false) t)
+      /\ t' = (if g_planes t <? 3 then cast_bool t else strip_phase (cast_bool t))
+  end.
+Proof. exact loader_postcondition. Qed.
+Print Assumptions C13_loader_postcondition.
+
+Theorem C13_loader_accepts_clean_data :
+  forall ld t,
+  in_range t ->
+  (ld <> LdTR -> ~ some_cell (cell_missing (loader_anc ld)) t /\ ~ some_cell cell_multi t) ->
+  ~ some_cell (cell_unphased false) t ->
+  exists t', load_model ld t = QOk t'.
+Proof. exact loader_accepts. Qed.
+Print Assumptions C13_loader_accepts_clean_data.
+
+(* what a loader returns passes, as it is, every check that loader runs *)
+Theorem C13_loaded_data_passes_its_checks :
+  forall ld t t',
+  load_model ld t = QOk t' ->
+  match ld with
+  | LdTR => check_phase false t' = QOk t'
+  | _ => check_missing (loader_anc ld) false t' = QOk t'
+         /\ check_biallelic false t' = QOk t'
+         /\ check_phase false t' = QOk t'
+  end.
+Proof. exact loaded_passes_checks. Qed.
+Print Assumptions C13_loaded_data_passes_its_checks.
+
+Theorem C13_loader_raise_names_offender :
+  forall ld t s v,
+  in_range t ->
+  load_model ld t = QRaise s v ->
+  exists i j, names t i j s v
+    /\ match ld with
+       | LdTR => cell_sat (cell_unphased false) t i j
+       | _ => cell_sat (cell_missing (loader_anc ld)) t i j \/ cell_sat cell_multi t i j
+              \/ cell_sat (cell_unphased false) t i j
+       end.
+Proof. exact loader_raise_names. Qed.
+Print Assumptions C13_loader_raise_names_offender.
+
+Theorem C13_loader_repeat_example :
+  let t := mkg [0; 1] [gv 7 1 10] [[gc 255 255 0]; [gc 5 3 1]] 3 None in
+  in_range t
+  /\ load_model LdTR t = QOk (strip_phase t)
+  /\ load_model LdPlain t = QRaise (Some 0) (Some 7)
+  /\ load_model LdTR (mkg [0; 1] [gv 7 1 10] [[gc 255 255 0]; [gc 5 3 0]] 3 None) = QRaise (Some 1) (Some 7).
+Proof. exact loader_tr_example. Qed.
+Print Assumptions C13_loader_repeat_example.
+
+Theorem C13_holds_loadw_sound :
+  forall k,
+  holds_loadw k = true ->
+  match lw_ld k with
+  | LdTR =>
+      match lw_out k with
+      | ORet t _ =>
+          (g_planes (lw_raw k) < 3 /\ t = lw_raw k)
+          \/ (3 <= g_planes (lw_raw k) /\ ~ some_cell unph_must (lw_raw k) /\ t = strip_phase (lw_raw k))
+      | ORaise s v _ =>
+          exists s' v', s = Some s' /\ v = Some v' /\ named_offender unph_may (lw_raw k) s' v'
+      | OOther e => e = E_Unobserved
+      end
+  | ld =>
+      match lw_out k with
+      | ORet t _ =>
+          ~ some_cell (miss_must (loader_anc ld)) (lw_raw k) /\ ~ some_cell multi_must (lw_raw k)
+          /\ ~ some_cell unph_must (lw_raw k) /\ t = strip_phase (cast_bool (lw_raw k))
+      | ORaise s v _ =>
+          exists s' v', s = Some s' /\ v = Some v'
+            /\ named_offender (fun x => miss_may x || multi_may x || unph_may x) (lw_raw k) s' v'
+      | OOther e => e = E_Unobserved
+      end
+  end.
+Proof. exact holds_loadw_sound. Qed.
+Print Assumptions C13_holds_loadw_sound.
+
+(* ==== dtype of data: uint8 as read, bool after check_biallelic ================================
+   hrun_d follows the branches the code takes on bool data (check_biallelic returns at once; the
+   comparisons of check_missing are False everywhere).  For every history it yields the contents
+   and outcomes of the untyped history hrun, so C13_history_sound etc. cover those branches. *)
+
+Theorem C13_bool_cell_meaning :
+  forall x, bool_cell x = true
+  <-> (ca x = 0 \/ ca x = 1) /\ (cb x = 0 \/ cb x = 1) /\ (cp x = 0 \/ cp x = 1).
+Proof. exact bool_cell_spec. Qed.
+Print Assumptions C13_bool_cell_meaning.
+
+Theorem C13_bool_tab_meaning :
+  forall t, bool_tab t = true <-> forall row x, In row (g_rows t) -> In x row -> bool_cell x = true.
+Proof. exact bool_tab_spec. Qed.
+Print Assumptions C13_bool_tab_meaning.
+
+Theorem C13_cast_bool_identity :
+  forall t, bool_tab t = true -> cast_bool t = t.
+Proof. exact cast_bool_id. Qed.
+Print Assumptions C13_cast_bool_identity.
+
+Theorem C13_bool_data_passes_missing_and_biallelic :
+  forall anc t d, bool_tab t = true -> check_missing anc d t = QOk t /\ check_biallelic d t = QOk t.
+Proof. exact bool_data_checks_pass. Qed.
+Print Assumptions C13_bool_data_passes_missing_and_biallelic.
+
+Theorem C13_typed_history_refines :
+  forall (T : Type) (rare_of : T -> Z -> Z -> bool) anc ops t isb,
+  (isb = true -> bool_tab t = true) ->
+  map (untyped T) (hrun_d T rare_of anc t isb ops) = hrun T rare_of anc t ops.
+Proof. exact typed_history_refines. Qed.
+Print Assumptions C13_typed_history_refines.
+
+Theorem C13_typed_history_dtype_backed :
+  forall (T : Type) (rare_of : T -> Z -> Z -> bool) anc ops t isb,
+  (isb = true -> bool_tab t = true) ->
+  Forall (fun x => snd (fst (fst x)) = true -> bool_tab (fst (fst (fst x))) = true)
+         (hrun_d T rare_of anc t isb ops).
+Proof. exact typed_history_bool. Qed.
+Print Assumptions C13_typed_history_dtype_backed.
+
+Theorem C13_typed_history_example :
+  let f := mkg [0; 1] [gv 1 1 10; gv 2 1 12] [[gc 0 1 1; gc 1 1 1]; [gc 255 255 0; gc 0 0 1]] 3 None in
+  let t := mkg [0; 1] [gv 1 1 10; gv 2 1 12] [[gc 0 1 1; gc 1 1 1]; [gc 1 0 1; gc 0 0 1]] 3 None in
+  map (fun x => (snd (fst (fst x)), snd x))
+      (hrun_d unit (fun _ _ _ => false) false t false
+              [HBiallelic false; HMissing true; HBiallelic true; HPhase; HRead f; HMissing false])
+  = [(false, QOk t); (true, QOk t); (true, QOk t); (true, QOk (strip_phase t)); (true, QOk f);
+     (false, QRaise (Some 1) (Some 1))].
+Proof. exact typed_history_example. Qed.
+Print Assumptions C13_typed_history_example.
+
+(* ==== check_maf(threshold, warn_only=True): the warning ===================================== *)
+
+Theorem C13_maf_warning_iff :
+  forall rare t,
+  (exists v, maf_log rare false true t = [v])
+  <-> existsb (fun k => rare k (lenZ (g_rows t))) (col_counts t) = true.
+Proof. exact maf_log_iff. Qed.
+Print Assumptions C13_maf_warning_iff.
+
+Theorem C13_maf_warning_names_rare_variant :
+  forall rare t v,
+  maf_log rare false true t = [v] ->
+  exists j k, v = vid (nth j (g_variants t) dv)
+              /\ nth_error (col_counts t) j = Some k /\ rare k (lenZ (g_rows t)) = true.
+Proof. exact maf_log_names. Qed.
+Print Assumptions C13_maf_warning_names_rare_variant.
+
+Theorem C13_maf_warning_is_the_raise_mode_variant :
+  forall rare b t v,
+  maf_log rare false true t = [v] <-> check_maf rare b false false t = QRaise None (Some v).
+Proof. exact maf_log_is_raise. Qed.
+Print Assumptions C13_maf_warning_is_the_raise_mode_variant.
+
+Theorem C13_maf_warning_silent_otherwise :
+  forall rare d w t,
+  d = true \/ w = false \/ existsb (fun k => rare k (lenZ (g_rows t))) (col_counts t) = false ->
+  maf_log rare d w t = [].
+Proof. exact maf_log_silent. Qed.
+Print Assumptions C13_maf_warning_silent_otherwise.
+
+Theorem C13_maf_warning_example :
+  let t := mkg [0; 1] [gv 1 1 10; gv 2 1 12] [[gc 0 1 1; gc 0 0 1]; [gc 1 0 1; gc 0 0 1]] 3 None in
+  let rare := fun k n : Z => k =? 0 in
+  maf_log rare false true t = [2] /\ check_maf rare true false true t = QOk t
+  /\ maf_log rare true true t = [] /\ maf_log rare false false t = []
+  /\ check_maf rare true false false t = QRaise None (Some 2).
+Proof. exact maf_log_example. Qed.
+Print Assumptions C13_maf_warning_example.
+
+Theorem C13_warn_clause_sound :
+  forall tq p warn,
+  warn_clause tq p warn = true ->
+  ((exists j, (j < length (mafs p))%nat /\ maf_must tq (mafs p) j = true) -> warn <> [])
+  /\ (warn <> [] -> exists j, (j < length (mafs p))%nat /\ maf_may tq (mafs p) j = true)
+  /\ (forall v, In (Some v) warn ->
+        exists j, (j < length (g_variants p))%nat /\ vid (nth j (g_variants p) dv) = v
+                  /\ maf_may tq (mafs p) j = true).
+Proof. exact warn_clause_sound. Qed.
+Print Assumptions C13_warn_clause_sound.
+
+Theorem C13_maf_must_meaning :
+  forall tq mq j, maf_must tq mq j = true <-> (nth j mq 0%Q + eps < tq)%Q.
+Proof. exact maf_must_spec. Qed.
+Print Assumptions C13_maf_must_meaning.
+
+Theorem C13_maf_may_meaning :
+  forall tq mq j, maf_may tq mq j = true <-> (nth j mq 0%Q <= tq + eps)%Q /\ ~ (nth j mq 0%Q == tq)%Q.
+Proof. exact maf_may_spec. Qed.
+Print Assumptions C13_maf_may_meaning.
+
+(* ==== decoders of the compact literals the harness writes for wide tables ===================== *)
+
+Theorem C13_repz_spec :
+  forall (A : Type) (x : A) n, repz x n = repeat x (Z.to_nat n).
+Proof. exact @repz_spec. Qed.
+Print Assumptions C13_repz_spec.
+
+Theorem C13_zrun_spec :
+  forall a n, zrun a n = map (fun i => a + Z.of_nat i) (seq 0 (Z.to_nat n)).
+Proof. exact zrun_spec. Qed.
+Print Assumptions C13_zrun_spec.
+
+Theorem C13_vrun_nth :
+  forall id0 chrom pos0 step n i,
+  (i < Z.to_nat n)%nat ->
+  nth_error (vrun id0 chrom pos0 step n) i
+  = Some (gv (id0 + Z.of_nat i) chrom (pos0 + step * Z.of_nat i)).
+Proof. exact vrun_nth. Qed.
+Print Assumptions C13_vrun_nth.
